@@ -1016,7 +1016,7 @@ func (p *Parser) parseTernary(conditionNode ast.Node) ast.Node {
 
 	firstToken := p.curToken // the "?"
 	p.nextToken()            // move past the '?'
-	precedence := p.currentPrecedence()
+	precedence := LOWEST
 	ifTrue := p.parseExpression(precedence)
 	if ifTrue == nil {
 		p.setTokenError(p.curToken, "invalid syntax in ternary if true expression")
